@@ -21,6 +21,8 @@ def handle (op : String) (fs : List (String × String)) : String :=
       let r := predictParallel (os.splitOn ",") n
       if op == "conc.race" && r == "equal" then "clean" else r
     | _, _ => "bad-case"
+  else if op == "conc.hdrwrite" then
+    if headerWriteFootprint.sharedWrites.isEmpty then "unchanged" else "changed"
   else if op == "conc.control" then
     -- positive control (diagnostic): a documented mutator must be seen by the hash
     match (getField fs "op").bind findAny with
